@@ -228,3 +228,33 @@ Proof.
   cbn [paths]. f_equal. induction subs as [|[[k|] s] r IH]; cbn [flat_map child_paths]; [reflexivity| |exact IH].
   rewrite IH. f_equal. destruct s; reflexivity.
 Qed.
+
+(* transform_error is prefix-compositional: the paths reported below a position are the paths the same tree
+   reports at the root, each prefixed with that position *)
+Lemma paths_prefix : forall e p, paths e p = map (fun s => p ++ s) (paths e []).
+Proof.
+  fix IH 1. intros e p.
+  assert (G : forall (mk : N -> step) (subs : list (option N * errkind)),
+            (forall ne, In ne subs -> forall q, paths (snd ne) q = map (fun s => q ++ s) (paths (snd ne) [])) ->
+            flat_map (child_paths mk p) subs ++ flat_map (own_paths p) subs
+            = map (fun s => p ++ s) (flat_map (child_paths mk []) subs ++ flat_map (own_paths []) subs)).
+  { intros mk subs Hs. rewrite map_app. f_equal.
+    - induction subs as [|[[k|] s] r IHr]; cbn [flat_map child_paths]; [reflexivity| |].
+      + rewrite map_app. rewrite IHr by (intros ne Hne; apply Hs; now right). f_equal.
+        destruct (is_group s).
+        * pose proof (Hs (Some k, s) (or_introl eq_refl)) as Hk. cbn [snd] in Hk.
+          rewrite (Hk (p ++ [mk k])), (Hk ([] ++ [mk k])). cbn [app]. rewrite map_map.
+          apply map_ext. intros a. now rewrite <- app_assoc.
+        * reflexivity.
+      + apply IHr. intros ne Hne. apply Hs. now right.
+    - induction subs as [|[[k|] s] r IHr]; cbn [flat_map own_paths fst app map]; [reflexivity| |].
+      + apply IHr. intros ne Hne. apply Hs. now right.
+      + rewrite app_nil_r. f_equal. apply IHr. intros ne Hne. apply Hs. now right. }
+  destruct e as [| | | | |cl extra|cl subs|subs| | |]; try (cbn [paths map]; now rewrite app_nil_r).
+  - rewrite !paths_class. apply G.
+    induction subs as [|[n s] r IHr]; intros ne Hne q; [contradiction|].
+    destruct Hne as [<-|Hne]; [cbn [snd]; apply IH | now apply IHr].
+  - rewrite !paths_iter. apply G.
+    induction subs as [|[n s] r IHr]; intros ne Hne q; [contradiction|].
+    destruct Hne as [<-|Hne]; [cbn [snd]; apply IH | now apply IHr].
+Qed.
